@@ -82,7 +82,7 @@ def validateStep (u : Unit) : List String → Unit × String
     | none => (u, "bad-op")
   | ["publish", proto, s, qos, tag, plen] =>
     match proto.toNat?, parseHex s, qos.toInt?, parseTag tag, plen.toNat? with
-    | some p, some b, some q, some t, some n => (u, showExc (publishCheck p b q t n))
+    | some p, some b, some q, some t, some n => (u, showExc (publishCheckFull p b q t n (if p = 5 then 1 else 0)))
     | _, _, _, _, _ => (u, "bad-op")
   | _ => (u, "bad-op")
 
